@@ -1,15 +1,16 @@
 """C03 - see properties.jsonl; DESIGN.md section 5."""
 from ._generic import run_property
 
-EXPLANATION = 'Bounded stand-in: files produced by an independent specification-level encoder (spec/pqwrite.py: encodings x index widths 0..32 x run mixtures x delta shapes x page versions x codecs x nulls) decoded by ParquetFile.to_pandas and compared with the logical content given to the encoder; decodes run in forked children so a native crash is a failed case.'
+EXPLANATION = 'Mixed. P: the callers of the native hybrid decoder in core.py are checked against the callee contract (itemsize in {1,4} and equal to the element size of the output array, itemsize 1 only with width <= 8, length a byte length): read_data and read_data_page by symbolic execution of their real source, the sites of read_data_page_v2 structurally (refuted there = known findings); the decoder kernels themselves are the C11 obligations. B (labelled bounded): files produced by an independent specification-level encoder (spec/pqwrite.py: encodings x index widths 0..32 x run mixtures x delta shapes x page versions x codecs x nulls) decoded by ParquetFile.to_pandas and compared with the logical content given to the encoder; decodes run in forked children so a native crash is a failed case.'
 
 
 def p_parts():
-    return []
+    from ._callsites import p_callsites
+    return [p_callsites]
 
 
 def run(ctx):
-    return run_property(ctx, 'exploration', EXPLANATION, p_parts=p_parts(), b_modules=['c03_foreign_files'],
+    return run_property(ctx, 'other', EXPLANATION, p_parts=p_parts(), b_modules=['c03_foreign_files'],
                         assumptions=["pandas / numpy / cramjam behaviour inside every opaque value",
                                      "the oracle (plain pandas / the spec library under /verif/spec) is a faithful reading of the property"],
                         trusted=["bounded layer: enumerated inputs only; nothing outside the stated bound is covered"])
